@@ -137,6 +137,10 @@ struct XParse : Engine {
                   std::string lit = "\""; if (body == 0) lit += std::string((size_t)L, 'p'); else for (int i = 0; i < L; i++) lit += (i % 3 == 0) ? "\\t" : (i % 3 == 1) ? "\\u0041" : "q";
                   lit += tl; std::string full = lit + "\"";
                   emit_now(full); emit_now("[" + full + "]"); emit_now("{" + full + ":" + full + "}"); emit_now(lit); emit_now("[1," + lit); if (tl[0]) emit_now(full.substr(0, full.size() - 2)); } } }
+            // k malformed / truncated escapes behind a plain prefix of every length 0..24 (size estimates that trust an escape before it has been validated)
+            { static const char* bad[] = { "\\u", "\\u1", "\\u12", "\\u123", "\\uZZZZ", "\\x", "\\uD83D", "\\uDE00" };
+              for (int pre = 0; pre <= 24; pre++) { if (!pool_take()) continue; for (auto b : bad) for (int k = 1; k <= 6; k++) for (int tail = 0; tail < 3; tail++) {
+                  std::string lit = "\"" + std::string((size_t)pre, 'p'); for (int i = 0; i < k; i++) lit += b; if (tail == 1) lit += "q"; if (tail != 2) lit += "\""; emit_now(lit); emit_now("{" + lit + (tail == 2 ? "" : ":1}")); } } }
             // a long well-formed number followed by every tail of up to 4 number characters (whatever is done with the part that does not fit a
             // fixed-size scratch buffer, the whole token still has to be a JSON number)
             { static const char TA[] = { '-', '+', '.', 'e', 'E', '5' };
